@@ -101,7 +101,7 @@ func steps(kind string, n int, st upstream.Step) []upstream.Step {
 
 // Families are the scenario families of C01/C05/C19.
 var Families = []string{"steady", "reset-after-k", "neverack-restart", "neverack-restart-notraffic", "refuse-then-recover", "late-ack",
-	"stop-with-pending-acks", "stop-mid-chunk", "restarts-in-a-row", "open-at-stop", "wrong-id", "blackhole-restart", "two-outputs-one-faulty", "overflow", "session-renewal", "young-pipeline-at-stop", "interrupted-recovery"}
+	"stop-with-pending-acks", "stop-mid-chunk", "restarts-in-a-row", "open-at-stop", "wrong-id", "blackhole-restart", "two-outputs-one-faulty", "overflow", "session-renewal", "young-pipeline-at-stop", "interrupted-recovery", "quota-headroom"}
 
 // GenScenario draws one scenario of a family.
 func GenScenario(r *rand.Rand, family string, idx int, o Opt) Scenario {
@@ -263,6 +263,21 @@ func GenScenario(r *rand.Rand, family string, idx int, o Opt) Scenario {
 			cs = append(cs, one)
 		}
 		sc.Gens = []GenSpec{{Conns: cs, UpScript: healthy(), StopDelayMs: r.Intn(6)}, {UpScript: healthy(), WaitAcked: true}}
+	case "quota-headroom":
+		// Every chunk goes through the disk queue (memory window 1) and the stream is several times larger than the queue's
+		// space limit, but a closed-loop client never lets the backlog exceed one burst: the limit is never really reached,
+		// so nothing may be dropped. Space accounting that drifts (bytes of removed files not given back) drops chunks here.
+		sc.Outputs = 1
+		sc.MemWindow = 1
+		sc.ChunkBytes = 300
+		sc.MaxBuf = "20000B"
+		sc.MaxDurMs = 0
+		one := ConnSpec{ID: nextID, PaceEvery: 12 + r.Intn(10)}
+		nextID++
+		for q := 1; q <= 300+r.Intn(60); q++ {
+			one.Recs = append(one.Recs, Rec{Conn: one.ID, Seq: q, App: "appA", Sev: 6, Host: "h1", Kind: "plain", Pad: 40 + r.Intn(40)})
+		}
+		sc.Gens = []GenSpec{{Conns: []ConnSpec{one}, UpScript: healthy(), WaitAcked: true}}
 	case "session-renewal":
 		sc.MaxDurMs = 20 + r.Intn(60)
 		cs := conns()
